@@ -111,7 +111,11 @@ func c03Cases(tier string, seed int64) []core.Case {
 				cases = append(cases, core.Case{ID: fmt.Sprintf("rand/n=%d/%s/dotu=%v", n, v.name, dotu), Run: func(ctx *core.Ctx) core.Result {
 					r := core.NewRand(ctx.Seed, fmt.Sprintf("c03/%d/%s/%v", n, v.name, dotu))
 					var orders [][]int
-					for i := 0; i < nrandom; i++ {
+					no := nrandom
+					if n > 64 && no > 12 {
+						no = 12 // (a session's tags are not reused: 65 535 are enough for twelve rounds of 200)
+					}
+					for i := 0; i < no; i++ {
 						orders = append(orders, r.Perm(n))
 					}
 					return c03Run(ctx.Seed, n, orders, v, dotu)
